@@ -293,6 +293,19 @@ def run(chk):
         chk.add(f"{rec['name']}: some point of the box has rank m (symbolic search over the box)", rec['ctx'].facts + rec['box'] + rec['side'], claim, kind='exists',
                 key=f"{rec['fn']} differential rank-deficient everywhere {C01.kw_key(rec['kw'])} n={n}", replay=rp)
     chk.solve(timeout_s=120 if quick else 600)
+    # an existential search that comes back 'unknown' is inconclusive; directed concrete probing of the real code (numeric Jacobian rank at 12 seeded
+    # points) may turn it into a replayed VIOLATION - never into a pass
+    for ob in chk.obls:
+        if ob.kind == 'exists' and ob.verdict not in ('sat', 'unsat') and ob.meta.get('replay') and 'symbolic search' in ob.name:
+            rname, payload = ob.meta['replay']
+            try:
+                ok, what = chk.replayers[rname](payload)
+            except Exception:
+                continue
+            if ok:
+                chk.extra.setdefault('violations_found_by_concrete_probing_after_solver_unknown', []).append(ob.name)
+                chk._classify(ob.key, f'{ob.name}: {what} (solver verdict: {ob.verdict}; found by directed concrete probing)', payload, rname)
+                ob.verdict = 'unsat'
 
 
 def pick_minor(Jn, m):
